@@ -212,11 +212,12 @@ func LeanStage(ctx *Ctx) *LeanResult {
 			}
 		}
 		// 2. executable models
-		out, err := runIn(ld, 20*time.Minute, "lake", "build", "oracle")
+		currentOracle = "oracle_" + p.ID
+		out, err := runIn(ld, 20*time.Minute, "lake", "build", currentOracle)
 		log.WriteString(out)
 		res.OracleOK = err == nil
 		if err != nil {
-			res.Broken = append(res.Broken, "lake build oracle: "+firstError(out))
+			res.Broken = append(res.Broken, "lake build "+currentOracle+": "+firstError(out))
 		}
 		// 3. property theorems
 		out, err = runIn(ld, 30*time.Minute, "lake", "build", "Golib.Props."+p.ID)
@@ -288,7 +289,7 @@ func LeanStage(ctx *Ctx) *LeanResult {
 		for _, h := range scanForbidden(verif) {
 			res.Broken = append(res.Broken, "forbidden token: "+h)
 		}
-		res.CheckerCmd = "cd lean && lake build oracle Golib.Props." + p.ID + " && lake env lean Audit/" + p.ID + ".lean  (# print axioms ⊆ {propext, Classical.choice, Quot.sound}; grep for sorry/admit/axiom/native_decide/bv_decide/implemented_by/unsafe)"
+		res.CheckerCmd = "cd lean && lake build oracle_" + p.ID + " Golib.Props." + p.ID + " && lake env lean Audit/" + p.ID + ".lean  (# print axioms ⊆ {propext, Classical.choice, Quot.sound}; grep for sorry/admit/axiom/native_decide/bv_decide/implemented_by/unsafe)"
 		// 6. thorough: independent re-check of the compiled theorems
 		if ctx.Tier == "thorough" && buildOK {
 			out, err := runIn(ld, 30*time.Minute, "lake", "env", "leanchecker", "Golib.Props."+p.ID)
@@ -324,8 +325,13 @@ func firstError(out string) string {
 
 // RunOracle pipes the cases through the compiled Lean driver and returns, per
 // case, the output lines.
+// currentOracle is the executable of the property being checked (set by LeanStage):
+// one executable per property, so that a model broken by facts regenerated from a
+// changed tree cannot disturb the checks of other properties.
+var currentOracle = "oracle"
+
 func RunOracle(verif string, cases []Case) ([][]string, error) {
-	exe := filepath.Join(leanDir(verif), ".lake", "build", "bin", "oracle")
+	exe := filepath.Join(leanDir(verif), ".lake", "build", "bin", currentOracle)
 	var in bytes.Buffer
 	total := 0
 	for _, c := range cases {
